@@ -51,7 +51,8 @@ def members():
         out.append(('GaussianUnivariate', 'N%d' % i, stats.norm(mu, sd), lambda: U.GaussianUnivariate(), 'every'))
     for i, (a, w) in enumerate(((0, 1), (-7, 0.02), (50, 900))):
         out.append(('UniformUnivariate', 'U%d' % i, stats.uniform(a, w), lambda: U.UniformUnivariate(), 'every'))
-    for i, (mu, sd, lo, hi) in enumerate(((0, 1, -1, 2), (5, 3, 4, 6), (10, 2, 0, 30))):
+    # the last two members live on a small scale (ranges 5e-3 and 0.09): the family is a location-scale family like the others
+    for i, (mu, sd, lo, hi) in enumerate(((0, 1, -1, 2), (5, 3, 4, 6), (10, 2, 0, 30), (2e-3, 1e-3, 0.0, 5e-3), (0.31, 0.02, 0.25, 0.34))):
         a, b = (lo - mu) / sd, (hi - mu) / sd
         out.append(('TruncatedGaussian', 'T%d' % i, stats.truncnorm(a, b, mu, sd),
                     lambda lo=lo, hi=hi: U.TruncatedGaussian(minimum=lo, maximum=hi), 'every'))
